@@ -243,7 +243,16 @@ class Axis(Sequence[np.float64], Expression):
         Returns:
             Normalized NDArray.
         """
-        return axis / np.linalg.norm(axis)
+        norm = np.linalg.norm(axis)
+        if norm == 0 or not np.isfinite(norm):
+            # The norm under- or overflowed, or the axis is zero or not finite.
+            scale = np.max(np.abs(axis))
+            if scale == 0 or not np.isfinite(scale):
+                msg = "axis requires a non-zero vector with finite components"
+                raise ValueError(msg)
+            axis = axis / scale
+            norm = np.linalg.norm(axis)
+        return axis / norm
 
     def __getitem__(self, index: int, /) -> np.float64:  # type:ignore[override]
         """Get the item at `index`."""
